@@ -72,6 +72,9 @@ def context(text, r, frag):
     toks = re.findall(r"[A-Za-z_@$][A-Za-z0-9_?!]*|\S", nxt)[:3]
     KW = {"dbtp", "def", "class", "module", "if", "unless", "case", "while", "return", "end", "p", "puts", "self", "private"}
     shape = " ".join(t if (t in KW or not re.match(r"[A-Za-z_@$]", t)) else ("Const" if t[0].isupper() else "id") for t in toks)
+    if frag[0].lstrip().startswith("["):
+        # a fragment line that starts with `[` is read as an index into the value the previous host line ended on
+        return "Dev_BracketLineContinuesPreviousStatement"
     last = frag[-1].strip()
     ends = "end" if last in ("end", "}") else "assign" if re.match(r"^[a-z_0-9]+ = ", last) else "call"
     return "host-line[%s]/fragment-ends-with-%s" % (shape, ends)
